@@ -1,7 +1,7 @@
 (* C13 — property theorems.  Only statements, each closed by [exact], each followed by
    Print Assumptions. *)
 From Coq Require Import ZArith List Bool.
-From Centro Require Import Base.VecC13 Proofs.VecC13Proofs.
+From Centro Require Import Base.VecC13 Proofs.VecC13Proofs Model.MeasureC13 Proofs.MeasureC13Proofs.
 Import ListNotations.
 Open Scope Z_scope.
 
@@ -46,3 +46,120 @@ Theorem C13_table_idx_own_label : forall l im im' y x,
   table_idx_at im y x = table_idx_at im' y x.
 Proof. exact table_idx_own_label. Qed.
 Print Assumptions C13_table_idx_own_label.
+
+(* ---- areas : scind.sum(ones, labels, indexes) ---- *)
+
+(* (a) the entry of object l is the same in any two scenes in which l has the same pixels, whatever
+   the other objects, the background and the two request lists are *)
+Theorem C13_areas_independent : forall im im' idxs idxs' k k' l,
+  mask l im = mask l im' -> nth_error idxs k = Some l -> nth_error idxs' k' = Some l ->
+  nth_error (areas im idxs) k = nth_error (areas im' idxs') k'.
+Proof. exact areas_independent. Qed.
+Print Assumptions C13_areas_independent.
+
+(* (b) renumbering the labels *)
+Theorem C13_areas_relabel : forall f im idxs,
+  injective f -> areas (relabel f im) (map f idxs) = areas im idxs.
+Proof. exact areas_relabel. Qed.
+Print Assumptions C13_areas_relabel.
+
+(* (b) the request list only selects and orders *)
+Theorem C13_areas_request : forall im idxs,
+  areas im idxs = flat_map (fun l => areas im [l]) idxs.
+Proof. exact areas_request. Qed.
+Print Assumptions C13_areas_request.
+
+(* ---- extents : calculate_extents as (area, bounding-box area) ---- *)
+
+(* (a) the entry of object l is the same in any two scenes in which l has the same pixels, whatever
+   the other objects, the background and the two request lists are *)
+Theorem C13_extents_independent : forall im im' idxs idxs' k k' l,
+  mask l im = mask l im' -> nth_error idxs k = Some l -> nth_error idxs' k' = Some l ->
+  nth_error (extents im idxs) k = nth_error (extents im' idxs') k'.
+Proof. exact extents_independent. Qed.
+Print Assumptions C13_extents_independent.
+
+(* (b) renumbering the labels *)
+Theorem C13_extents_relabel : forall f im idxs,
+  injective f -> extents (relabel f im) (map f idxs) = extents im idxs.
+Proof. exact extents_relabel. Qed.
+Print Assumptions C13_extents_relabel.
+
+(* (b) the request list only selects and orders *)
+Theorem C13_extents_request : forall im idxs,
+  extents im idxs = flat_map (fun l => extents im [l]) idxs.
+Proof. exact extents_request. Qed.
+Print Assumptions C13_extents_request.
+
+(* (c) the extent of an object is a function of its coordinate list (extent1_coords) that is
+   invariant under translation *)
+Theorem C13_extents_coords : forall im l, extent1 im l = extent_c (own_coords im l).
+Proof. exact extent1_coords. Qed.
+Print Assumptions C13_extents_coords.
+
+Theorem C13_extents_translate : forall dy dx cs, extent_c (map (shift dy dx) cs) = extent_c cs.
+Proof. exact extent_translate. Qed.
+Print Assumptions C13_extents_translate.
+
+(* ---- perimeters : calculate_perimeters in thousandths, scoring table regenerated from the source ---- *)
+
+(* (a) the entry of object l is the same in any two scenes in which l has the same pixels, whatever
+   the other objects, the background and the two request lists are *)
+Theorem C13_perimeters_independent : forall im im' idxs idxs' k k' l,
+  mask l im = mask l im' -> nth_error idxs k = Some l -> nth_error idxs' k' = Some l ->
+  nth_error (perimeters im idxs) k = nth_error (perimeters im' idxs') k'.
+Proof. exact perimeters_independent. Qed.
+Print Assumptions C13_perimeters_independent.
+
+(* (b) renumbering the labels *)
+Theorem C13_perimeters_relabel : forall f im idxs,
+  injective f -> perimeters (relabel f im) (map f idxs) = perimeters im idxs.
+Proof. exact perimeters_relabel. Qed.
+Print Assumptions C13_perimeters_relabel.
+
+(* (b) the request list only selects and orders *)
+Theorem C13_perimeters_request : forall im idxs,
+  perimeters im idxs = flat_map (fun l => perimeters im [l]) idxs.
+Proof. exact perimeters_request. Qed.
+Print Assumptions C13_perimeters_request.
+
+(* ---- skeleton_length : np.bincount(labels, score, minlength=max(indices)+1)[indices] ---- *)
+
+Theorem C13_skeleton_length_independent : forall im im' idxs idxs' k k' l,
+  nonneg_img im -> nonneg_img im' -> nonneg_list idxs -> nonneg_list idxs' ->
+  mask l im = mask l im' -> nth_error idxs k = Some l -> nth_error idxs' k' = Some l ->
+  exists r r', skeleton_length im idxs = Some r /\ skeleton_length im' idxs' = Some r'
+               /\ nth_error r k = nth_error r' k'.
+Proof. exact skeleton_length_independent. Qed.
+Print Assumptions C13_skeleton_length_independent.
+
+Theorem C13_skeleton_length_relabel : forall f im idxs,
+  injective f -> (forall a, 0 <= a -> 0 <= f a) -> nonneg_img im -> nonneg_list idxs ->
+  skeleton_length (relabel f im) (map f idxs) = skeleton_length im idxs.
+Proof. exact skeleton_length_relabel. Qed.
+Print Assumptions C13_skeleton_length_relabel.
+
+Theorem C13_skeleton_length_request : forall im idxs,
+  nonneg_img im -> nonneg_list idxs ->
+  skeleton_length im idxs =
+  Some (flat_map (fun l => match skeleton_length im [l] with Some r => r | None => [] end) idxs).
+Proof. exact skeleton_length_request. Qed.
+Print Assumptions C13_skeleton_length_request.
+
+(* ---- euler_number : 4W from the bit-quad counts keyed by I00; labels are non-zero ---- *)
+
+Theorem C13_euler_independent : forall im im' idxs idxs' k k' l,
+  l <> 0 -> mask l im = mask l im' -> nth_error idxs k = Some l -> nth_error idxs' k' = Some l ->
+  nth_error (euler4 im idxs) k = nth_error (euler4 im' idxs') k'.
+Proof. exact euler_independent. Qed.
+Print Assumptions C13_euler_independent.
+
+Theorem C13_euler_relabel : forall f im idxs,
+  injective f -> f 0 = 0 -> nonzero_list idxs -> euler4 (relabel f im) (map f idxs) = euler4 im idxs.
+Proof. exact euler_relabel. Qed.
+Print Assumptions C13_euler_relabel.
+
+Theorem C13_euler_request : forall im idxs,
+  euler4 im idxs = flat_map (fun l => euler4 im [l]) idxs.
+Proof. exact euler_request. Qed.
+Print Assumptions C13_euler_request.
